@@ -190,6 +190,19 @@ func avoidOpenFnFindings(c *Case) {
 
 func fnFeatures(c Case) []string {
 	var out []string
+	ints, floats := 0, 0
+	for _, a := range c.Args {
+		switch a.K {
+		case "float32", "float64":
+			floats++
+		case "nil", "missing", "str", "bool", "list", "map", "":
+		default:
+			ints++
+		}
+	}
+	if ints > 0 && floats > 0 {
+		out = append(out, "fn:"+c.Fn+":intfloat")
+	}
 	for i, a := range c.Args {
 		if a.IsNull() {
 			out = append(out, "fn-null-arg", fmt.Sprintf("fn:%s:null%d", c.Fn, i))
